@@ -65,6 +65,17 @@ func (d *Doc) Features() []string {
 				}
 			}
 			set["table"] = true
+			headerless := n.CountTag("thead") == 0
+			if headerless && len(n.Kids) > 0 && len(n.Kids[0].Kids) > 0 {
+				for _, c := range n.Kids[0].Kids[0].Kids {
+					if c.Tag == "th" {
+						headerless = false
+					}
+				}
+			}
+			if headerless {
+				set["headerless-table"] = true
+			}
 		case "li":
 			seen := false
 			for _, k := range n.Kids {
@@ -76,6 +87,12 @@ func (d *Doc) Features() []string {
 			}
 		case "h1", "h2", "h3", "h4", "h5", "h6":
 			set["heading"] = true
+		case "a":
+			for _, k := range n.Kids {
+				if isTag(k, "p", "h1", "h2", "h3", "h4", "h5", "h6") {
+					set["a-block"] = true
+				}
+			}
 		}
 		for _, a := range n.Attr {
 			switch a.K {
